@@ -101,8 +101,8 @@ class Relay(recorded.Module):
             st, tr = st + d, tr + g
         if prop not in ("C07", "REL"):
             return st, tr
-        offs = "0..200" if th else "{0, 3, 8, 12, 18, 25, 40, 80}"
-        cfg = "SPECIFICATION GSpec\nCONSTANTS\n  Offsets = %s\n  Slow = %s\nCHECK_DEADLOCK FALSE\n" % (
+        offs = "{}" if th else "{0, 3, 8, 12, 18, 25, 40, 80}"
+        cfg = "SPECIFICATION GSpec\nCONSTANTS\n  OffSet = %s\n  OffHi = 200\n  Slow = %s\nCHECK_DEADLOCK FALSE\n" % (
             offs, "TRUE" if th else "FALSE")
         rc, out = vlib.run_tlc(sc.sub("gen-fault"), "Gen_Fault", cfg, workers=2, timeout=600)
         if "No error has been found" not in out:
